@@ -11,13 +11,16 @@
                    code by the race detector, never a verdict by itself.
    In simulation mode (RecordHist) the history of server answers, enqueue operations and
    matcher completions of each behaviour is exported and forced onto the real Scan by the
-   harness (gated fake log + blocking hooks).                                            *)
+   harness (gated fake log + blocking hooks).  In generation mode (RecordHist, HistKinds =
+   {"ans"}, breadth-first) every server script - every sequence of answers in every global
+   order - of a small configuration is exported.                                         *)
 EXTENDS CTScanner, Json
 
 CONSTANTS Starts, Sizes, MaxIdxs, Batches, NFs, NMs, KPs,   \* sets: the configurations explored
           MaxFaults,      \* server fault budget per scan (errors + truncated answers); 100 = unlimited
           CapF, CapJ,     \* channel capacities (1000 and 100000 in the code)
-          RecordHist      \* BOOLEAN: keep the history (simulation / generation only)
+          RecordHist,     \* BOOLEAN: keep the history (simulation / generation only)
+          HistKinds       \* which events the history keeps: subset of {"ans", "enq", "proc"}
 
 VARIABLES st, mon, bad, hist
 vars == <<st, mon, bad, hist>>
@@ -34,7 +37,7 @@ Init == /\ \E c \in Configs : st = BInit(CfgOf(c), MaxFaults)
         /\ bad = FALSE
         /\ hist = <<>>
 
-H(e) == hist' = IF RecordHist THEN Append(hist, e) ELSE hist
+H(e) == hist' = IF RecordHist /\ e.t \in HistKinds THEN Append(hist, e) ELSE hist
 NoMon == UNCHANGED <<mon, bad>>
 
 Main == \/ MainSTHEn(st)       /\ st' = MainSTH(st)
